@@ -195,8 +195,13 @@ TickitTerm *tickit_term_build(const struct TickitTermBuilder *_builder)
     tt->ti_hook = (struct TickitTerminfoHook){ 0 };
 
   TickitTermDriver *driver = tickit_term_build_driver(&builder);
-  if(!driver)
+  if(!driver) {
+    /* nothing else has been set up yet */
+    int saved_errno = errno;
+    free(tt);
+    errno = saved_errno;
     return NULL;
+  }
 
   tt->outfd   = -1;
   tt->outfunc = NULL;
